@@ -39,7 +39,9 @@ def check_state(st):
             if a == 0:
                 n += 1
                 got = float(fp.pf_simple_load(L))
-                if not near(got, want, 1e-9, 1e-13):
+                # the medians are doubles: their log-distance carries a few ulps of log10 S, which the division by a tiny scatter (zoom 1e5) magnifies
+                dz = 8 * 2.3e-16 * max(1.0, abs(lgS)) / sS
+                if not near(got, want, 1e-9, 1e-13 + float(norm.pdf(float(z))) * dz):
                     viol.append(('pf_simple_load differs from Phi((log10 L - log10 S) / s_S)', case, want, got))
                 # vanishing load scatter: tends to the deterministic value
                 prev = None
